@@ -180,11 +180,23 @@ func prop(t *rapid.T) {
 	o.CacheCap = rapid.IntRange(0, ev.Pick(4, 8)).Draw(t, "cap")
 	p.customNA = rapid.Bool().Draw(t, "customNA")
 	o.Via, o.Order = model.GenVia(t), model.GenOrder(t)
+	o.CacheStyle = model.GenCacheStyle(t)
 	o.EncodedPath = rapid.IntRange(0, 3).Draw(t, "useEncodedPath") == 0
 	tc := model.TableCfg{MaxRoutes: 6, Gen: model.GenCfg{MaxSegs: 3}, Fallback: o.Fallback}
 	p.tb.Routes = model.GenRoutes(t, tc, o.Strict)
 	if len(p.tb.Routes) == 0 {
 		t.Skip("empty table")
+	}
+	if rapid.IntRange(0, 3).Draw(t, "longPrefix") == 0 {
+		// every route below one long first segment (as inside a group with a long prefix): cache keys that agree
+		// in their first 130-300 bytes and differ only after that
+		long := strings.Repeat(rapid.StringMatching(`[a-c]{10}`).Draw(t, "longUnit"), rapid.IntRange(13, 30).Draw(t, "longReps"))
+		for i := range p.tb.Routes {
+			if d := &p.tb.Routes[i]; d.P.Raw == "" {
+				d.P.Segs = append([]model.Part{{Pre: long}}, d.P.Segs...)
+			}
+		}
+		ev.Class("table:all-routes-below-a-long-first-segment")
 	}
 	p.nGlobal = rapid.IntRange(0, 2).Draw(t, "nglobal")
 	for range p.tb.Routes {
